@@ -27,11 +27,18 @@ structure Fields where
   ms : Int
 deriving DecidableEq, Repr
 
-def isLeap (y : Int) : Bool := (y % 4 == 0 && y % 100 != 0) || y % 400 == 0
+/-- Gregorian leap year rule -/
+def IsLeap (y : Int) : Prop := (y % 4 = 0 ∧ y % 100 ≠ 0) ∨ y % 400 = 0
+
+instance (y : Int) : Decidable (IsLeap y) := by unfold IsLeap; exact inferInstance
 
 def daysInMonth (y m : Int) : Int :=
-  if m = 2 then (if isLeap y then 29 else 28)
+  if m = 2 then (if IsLeap y then 29 else 28)
   else if m = 4 ∨ m = 6 ∨ m = 9 ∨ m = 11 then 30 else 31
+
+/-- the calendar day after (y, m, d) -/
+def nextDay (y m d : Int) : Int × Int × Int :=
+  if d < daysInMonth y m then (y, m, d + 1) else if m < 12 then (y, m + 1, 1) else (y + 1, 1, 1)
 
 /-- a calendar day of the proleptic Gregorian calendar in the supported years -/
 def validYMD (y m d : Int) : Bool :=
@@ -135,19 +142,15 @@ def compareTs (a : Fields) (xa : Int) (b : Fields) (xb : Int) : Ordering :=
 
 /-- chronological order: lexicographic on the seven fields -/
 def cmpFields (a b : Fields) : Ordering :=
-  match cmpInt a.yr b.yr with
-  | .eq => match cmpInt a.mon b.mon with
-    | .eq => match cmpInt a.day b.day with
-      | .eq => match cmpInt a.hr b.hr with
-        | .eq => match cmpInt a.min b.min with
-          | .eq => match cmpInt a.sec b.sec with
-            | .eq => cmpInt a.ms b.ms
-            | o => o
-          | o => o
-        | o => o
-      | o => o
-    | o => o
-  | o => o
+  (cmpInt a.yr b.yr).then ((cmpInt a.mon b.mon).then ((cmpInt a.day b.day).then
+    ((cmpInt a.hr b.hr).then ((cmpInt a.min b.min).then ((cmpInt a.sec b.sec).then
+      (cmpInt a.ms b.ms))))))
+
+/-- the instant denoted by possibly overflowed fields, in ms (months carried into years, the
+rest linear): the specification `normalize` is proved against -/
+def absMs (f : Fields) : Int :=
+  (jdn (normYear f.yr f.mon) (normMon f.mon) 1 + (f.day - 1)) * 86400000 +
+    f.hr * 3600000 + f.min * 60000 + f.sec * 1000 + f.ms
 
 /-! ## literal text (`SuDate.String`, `SuTimestamp.String`, `DateFromLiteral`)
 Strings are lists of byte codes: digit d ↦ 48 + d, '#' = 35, '.' = 46. -/
